@@ -20,11 +20,18 @@ import (
 
 type BuilderCase struct {
 	World world.World `json:"world"`
+	// for relative dependencies reported by a finder: the module location they are
+	// reported from and the relative addresses, in order
+	From string   `json:"from,omitempty"`
+	Rels []string `json:"rels,omitempty"`
 }
 
 var subBuilderJoin = ev.Register("builderjoin", checkBuilderJoin)
 
 func checkBuilderJoin(c BuilderCase) error {
+	if len(c.Rels) > 0 {
+		return checkBuilderRelative(c)
+	}
 	w := c.World
 	arena, cleanup := fsx.Scratch("c11b-")
 	defer cleanup()
@@ -90,6 +97,65 @@ func checkBuilderJoin(c BuilderCase) error {
 	return nil
 }
 
+// checkBuilderRelative: relative dependencies reported through
+// Dependencies.AddLocalSource obey the same segment algebra: each is analysed at
+// the reporting location's sub-path followed by the relative path, and one that
+// climbs above the package root fails the build.
+func checkBuilderRelative(c BuilderCase) error {
+	w := c.World
+	arena, cleanup := fsx.Scratch("c11r-")
+	defer cleanup()
+	h := world.NewHarness(w, 1)
+	run, err := world.Start(h, world.TargetDir(arena))
+	if err != nil {
+		return fmt.Errorf("harness: %v", err)
+	}
+	res := run.DoCall(h.Context("full"), w.Script[0])
+	if res.Panicked != nil {
+		return fmt.Errorf("Add call panicked: %v", res.Panicked)
+	}
+	base := Base{Kind: "remote"}
+	if c.From != "" {
+		base.Segs = strings.Split(c.From, "/")
+	}
+	wantErr := false
+	var wantKeys []string
+	for _, rel := range c.Rels {
+		_, names, ok := model(base, relSegs(rel))
+		if !ok {
+			wantErr = true
+			continue
+		}
+		wantKeys = append(wantKeys, fmt.Sprintf("real//%s#f0", strings.Join(names, "/")))
+	}
+	if wantErr {
+		if !res.Diags.HasErrors() {
+			return fmt.Errorf("a relative dependency among %q reported at %q climbs above the package root, but the Add call reported no error", c.Rels, c.From)
+		}
+		return nil
+	}
+	if res.Diags.HasErrors() {
+		var msgs []string
+		for _, d := range res.Diags {
+			msgs = append(msgs, world.DiagString(d))
+		}
+		return fmt.Errorf("relative dependencies %q reported at %q all stay inside the package, but the Add call failed: %s", c.Rels, c.From, strings.Join(msgs, " || "))
+	}
+	analysed := map[string]bool{}
+	for _, e := range h.Log {
+		if e.Kind == "analyse" {
+			analysed[e.Key] = true
+		}
+	}
+	for i, k := range wantKeys {
+		if !analysed[k] {
+			return fmt.Errorf("relative dependency %q reported at %q: the module at %q was not analysed; analysed: %v", c.Rels[i], c.From, strings.TrimSuffix(strings.TrimPrefix(k, "real//"), "#f0"), keys(analysed))
+		}
+	}
+	ev.NonTrivial(c, "relative-dependencies-through-the-builder")
+	return nil
+}
+
 func keys(m map[string]bool) []string {
 	var out []string
 	for k := range m {
@@ -100,6 +166,37 @@ func keys(m map[string]bool) []string {
 
 func TestBuilderJoin(t *testing.T) {
 	ev.Check(t, subBuilderJoin, func(t *rapid.T) BuilderCase {
+		if rapid.IntRange(0, 2).Draw(t, "relative?") == 0 {
+			from := rapid.SampledFrom([]string{"", "a", "a/b", "v1..", "rel../x"}).Draw(t, "from")
+			names := []string{"x", "mod", "rel..", "..shared", "...", "v1..", ".hidden", "a"}
+			rels := rapid.SliceOfN(rapid.Custom(func(t *rapid.T) string {
+				ups := rapid.IntRange(0, 3).Draw(t, "ups")
+				tail := rapid.SliceOfN(rapid.SampledFrom(names), 0, 3).Draw(t, "tail")
+				if ups == 0 {
+					return "./" + strings.Join(tail, "/")
+				}
+				s := strings.TrimSuffix(strings.Repeat("../", ups), "/")
+				if len(tail) > 0 {
+					return s + "/" + strings.Join(tail, "/")
+				}
+				if s == ".." {
+					return "../"
+				}
+				return s
+			}), 1, 3).Draw(t, "rels")
+			m := world.Module{Sub: from, Deps: map[string][]world.Dep{}}
+			for _, r := range rels {
+				m.Deps["0"] = append(m.Deps["0"], world.Dep{Kind: "local", Addr: r})
+			}
+			addr := "https://example.com/real.tgz"
+			call := addr
+			if from != "" {
+				call += "//" + from
+			}
+			return BuilderCase{From: from, Rels: rels, World: world.World{
+				Remotes: []world.RemotePkg{{Addr: addr, Content: "real", Modules: []world.Module{m}}},
+				Script:  []world.AddCall{{Kind: "remote", Addr: call}}}}
+		}
 		var w world.World
 		w.Remotes = []world.RemotePkg{{Addr: "https://example.com/real.tgz", Content: "real",
 			Modules: []world.Module{{Sub: ""}, {Sub: "root"}, {Sub: "root/x"}, {Sub: "x"}, {Sub: "modules/a"}, {Sub: "root/modules/a"}}}}
